@@ -6,6 +6,7 @@ package main
 
 import (
 	"crypto/rand"
+	"encoding/binary"
 	"fmt"
 	"hash"
 	"io"
@@ -34,6 +35,7 @@ func init() {
 	acts["heap_protect"] = actHeapProtect
 	exclusiveActs["heap_protect"] = false
 	acts["heap_observe"] = actHeapObserve
+	acts["heap_encode_dec"] = actHeapEncodeDec
 }
 
 // ---------------------------------------------------------------------------------------- spies
@@ -267,8 +269,16 @@ func actProtect(e *Env, a J) J {
 	var wire []byte
 	withRand(gs(a, "rand"), func() { wire, err = ike.EncodeEncrypt(m, key, roleOf(a)) })
 	obs := errObs(err)
+	// whatever is produced states its own sizes: header length = datagram size; with keys, the first payload is the Encrypted
+	// payload and its length field = datagram size - 28 (a field that wrapped around shows here)
+	obs["lenok"] = true
 	if err == nil {
 		obs["wire"] = octOf(wire)
+		if len(wire) < 28 || int(binary.BigEndian.Uint32(wire[24:28])) != len(wire) {
+			obs["lenok"] = false
+		} else if o != nil && (len(wire) < 32 || int(binary.BigEndian.Uint16(wire[30:32])) != len(wire)-28) {
+			obs["lenok"] = false
+		}
 		if o != nil {
 			obs["oracle"] = skOracles(o, gb(a, "role"), wire)
 		}
@@ -338,7 +348,28 @@ type heapState struct {
 	held   message.IKEPayloadContainer // the caller's own container variable: the SAME slice the message was built from
 	out    []byte
 	sa     *saObj
+	// every buffer an encode returned (the caller still holds them) with what the caller believes they contain, and
+	// what the caller believes the receive buffer contains
+	outs     [][]byte
+	outSnaps [][]byte
+	inExpect []byte
 }
+
+func (h *heapState) keep(w []byte) {
+	h.outs = append(h.outs, w)
+	h.outSnaps = append(h.outSnaps, append([]byte{}, w...))
+}
+
+func (h *heapState) heldSame() bool {
+	for i := range h.outs {
+		if string(h.outs[i]) != string(h.outSnaps[i]) {
+			return false
+		}
+	}
+	return true
+}
+
+func (h *heapState) inSame() bool { return string(h.in) == string(h.inExpect) }
 
 func hstate(e *Env) *heapState {
 	h, _ := e.objs["heap"].(*heapState)
@@ -351,7 +382,7 @@ func actHeapInit(e *Env, a J) J {
 		return J{"infra": "heap_init: " + err.Error()}
 	}
 	w := gox(a, "wire")
-	h := &heapState{in: append([]byte{}, w...), inOrig: append([]byte{}, w...), src: src}
+	h := &heapState{in: append([]byte{}, w...), inOrig: append([]byte{}, w...), inExpect: append([]byte{}, w...), src: src}
 	h.orig = append(message.IKEPayloadContainer{}, src.Payloads...)
 	h.held = src.Payloads
 	e.objs["heap"] = h
@@ -362,6 +393,7 @@ func actHeapDecode(e *Env, a J) J {
 	h := hstate(e)
 	// every decode starts from a freshly received datagram in the same (reused) buffer
 	copy(h.in, h.inOrig)
+	copy(h.inExpect, h.inOrig)
 	var m *message.IKEMessage
 	var err error
 	if gs(a, "how") == "unprotect" {
@@ -387,7 +419,32 @@ func actHeapScribbleIn(e *Env, a J) J {
 			h.in[i] = byte(i * 7)
 		}
 	}
+	copy(h.inExpect, h.in)
 	return J{}
+}
+
+// heap_encode_dec: the caller builds a message from the decoded one -- same header object, a NEW container holding one more
+// payload in front -- and encodes it.  The result is the reference encoding; the receive buffer and every buffer returned
+// earlier are as the caller left them.
+func actHeapEncodeDec(e *Env, a J) J {
+	h := hstate(e)
+	if h.dmsg == nil {
+		return J{"infra": "heap_encode_dec before a decode"}
+	}
+	extra, err := buildPayload(gj(a, "extra"))
+	if err != nil {
+		return J{"infra": "heap_encode_dec: " + err.Error()}
+	}
+	m2 := &message.IKEMessage{IKEHeader: h.dmsg.IKEHeader, Payloads: append(message.IKEPayloadContainer{extra}, h.dmsg.Payloads...)}
+	w, err := m2.Encode()
+	o := errObs(err)
+	if err == nil {
+		o["wire"] = octOf(w)
+		h.keep(w)
+	}
+	o["insame"] = h.inSame()
+	o["heldsame"] = h.heldSame()
+	return o
 }
 
 func actHeapEncode(e *Env, a J) J {
@@ -397,6 +454,11 @@ func actHeapEncode(e *Env, a J) J {
 	if err == nil {
 		h.out = w
 		o["wire"] = octOf(w)
+	}
+	o["insame"] = h.inSame()
+	o["heldsame"] = h.heldSame() // checked BEFORE the new buffer joins the held ones: did this call disturb an earlier result?
+	if err == nil {
+		h.keep(w)
 	}
 	o["srcafter"] = projChain(h.src.Payloads)
 	// does the message reference the returned buffer?  overwrite a copy-protected probe: flip the returned buffer
@@ -424,6 +486,11 @@ func actHeapScribbleOut(e *Env, a J) J {
 	for i := range h.out {
 		h.out[i] = ^h.out[i]
 	}
+	for i := range h.outs { // the caller knows what it wrote
+		if len(h.outs[i]) > 0 && len(h.out) > 0 && &h.outs[i][0] == &h.out[0] {
+			h.outSnaps[i] = append([]byte{}, h.out...)
+		}
+	}
 	return J{}
 }
 
@@ -448,8 +515,13 @@ func actHeapProtect(e *Env, a J) J {
 	if err != nil {
 		return J{"infra": err.Error()}
 	}
-	_, err = ike.EncodeEncrypt(h.src, sa.key, roleOf(a))
+	pw, err := ike.EncodeEncrypt(h.src, sa.key, roleOf(a))
 	o := errObs(err)
+	o["heldsame"] = h.heldSame()
+	o["insame"] = h.inSame()
+	if err == nil {
+		h.keep(pw)
+	}
 	hj := J{}
 	projHeader(h.src.IKEHeader, hj)
 	o["srchdr"] = hj
@@ -470,7 +542,7 @@ func actHeapProtect(e *Env, a J) J {
 
 func actHeapObserve(e *Env, a J) J {
 	h := hstate(e)
-	o := J{"orig": projChain(h.orig), "held": projChain(h.held)}
+	o := J{"orig": projChain(h.orig), "held": projChain(h.held), "heldsame": h.heldSame(), "insame": h.inSame()}
 	hj := J{}
 	projHeader(h.src.IKEHeader, hj)
 	o["srchdr"] = hj
